@@ -84,6 +84,31 @@ fn vc19_bridge_interleaved() {
     leak(bridge); leak(a1); leak(b1); leak(a2);
 }
 
+// @h name=vc19_bridge_late_then_inorder tier=quick timeout=900
+// @fn RewriteBridge::rewrite_packet
+// @stub stun::random_u32 -> any
+// @bound one source stream, three packets: t, then a late packet (symbolic amount more than 900000 ticks behind, i.e. forward distance >= 2^31), then t + d with 0 <= d <= 900000 (symbolic)
+// @oracle the late packet does not become the timestamp reference: the third packet is d ticks after the first on the output side too, its offset equals the first packet's; sequence numbers stay consecutive in arrival order (seeded change C19-B)
+#[kani::proof]
+#[kani::unwind(5)]
+#[kani::stub(crate::transports::ice::stun::random_u32, rnd32)]
+fn vc19_bridge_late_then_inorder() {
+    let target = lean_transport();
+    let bridge = RewriteBridge::new(target, None, HashSet::new(), RtpRewriteBridgeOptions::default(), vec![rule(None, None, kani::any(), None)]);
+    let ssrc: u32 = kani::any(); let t: u32 = kani::any();
+    let back: u32 = kani::any(); kani::assume(back > 900_000 && back <= 0x7FFF_FFFF);
+    let d: u32 = kani::any(); kani::assume(d <= 900_000);
+    let mut p1 = pkt(0, kani::any(), t, ssrc);
+    let mut p2 = pkt(0, kani::any(), t.wrapping_sub(back), ssrc);
+    let mut p3 = pkt(0, kani::any(), t.wrapping_add(d), ssrc);
+    bridge.rewrite_packet(&mut p1); bridge.rewrite_packet(&mut p2); bridge.rewrite_packet(&mut p3);
+    assert!(p3.header.timestamp.wrapping_sub(p1.header.timestamp) == d, "a late packet shifted the output timeline of the in-order stream");
+    assert!(p2.header.timestamp.wrapping_sub(p1.header.timestamp) == 0u32.wrapping_sub(back), "late packet not relayed with its true offset");
+    assert!(p2.header.sequence_number == p1.header.sequence_number.wrapping_add(1) && p3.header.sequence_number == p1.header.sequence_number.wrapping_add(2));
+    kani::cover!(d == 160 && back == 1_000_000);
+    leak(bridge); leak(p1); leak(p2); leak(p3);
+}
+
 // @h name=vc19_bridge_rule_select tier=quick timeout=600
 // @fn RewriteBridge::rule_for, RewriteBridge::rewrite_packet
 // @stub stun::random_u32 -> any
